@@ -71,7 +71,7 @@ w("markers-delete-keeps-fill", ["C11", "C07"], "C11.markers/commitMarkers/Delete
 # ---- units --------------------------------------------------------------------------------------
 w("numeric-snapshot-relative", ["C07", "C03"], "C07.abs/(*column.numericColumn[T]).Snapshot$1", "numeric snapshot writes relative offsets",
   ("column_numeric.go", "c.write(dst, chunk.Min()+x, data[x])", "c.write(dst, x, data[x])"), suite="survives")
-w("string-apply-absolute-index", ["C01", "C09", "C11"], "C01.units/(*column.columnString).Apply", "absolute offset indexes a per-block array",
+w("string-apply-absolute-index", ["C01"], "C01.units/(*column.columnString).Apply", "absolute offset indexes a per-block array",
   ("column_strings.go", "\t// Update the values of the column, for this one we can only process stores\n\tfor r.Next() {\n\t\toffset := r.Offset - int32(from)", "\t// Update the values of the column, for this one we can only process stores\n\tfor r.Next() {\n\t\t_ = from\n\t\toffset := r.Offset"))
 w("writestate-relative-inserts", ["C07", "C08"], "C07.abs/(*column.Collection).writeState$1$1$1", "insert markers written with relative offsets",
   ("snapshot.go", "buffer.PutOperation(commit.Insert, offset+idx)", "buffer.PutOperation(commit.Insert, idx+offset-offset)"))
@@ -175,6 +175,37 @@ w("putint32-writes-16-bits", ["C01", "C05"], "C01.width/PutInt32", "int32 writte
   ("commit/buffer.go", "func (b *Buffer) PutInt32(op OpType, idx uint32, value int32) {\n\tb.writeUint32(op, idx, uint32(value))", "func (b *Buffer) PutInt32(op OpType, idx uint32, value int32) {\n\tb.writeUint16(op, idx, uint16(value))"))
 w("header-start-stale", ["C05"], "C05.header/(*commit.Buffer).writeChunk/header", "block header records a wrong start",
   ("commit/buffer.go", "\t\t\tStart: uint32(len(b.buffer)),", "\t\t\tStart: uint32(cap(b.buffer)),"))
+
+# ---- rules added after the seeded changes (the seeded patches themselves are replayed by scripts/seedmatrix.py) ----
+w("rekey-from-stored-string", ["C12"], "C12.arms/column.columnKey/Put/rekey-live-only", "previous key removed because of a stale string of a deleted row",
+  ("column_strings.go", "if fill.Contains(uint32(offset)) && data[offset] != value {", "if data[offset] != \"\" && data[offset] != value {"), suite="survives")
+w("clone-reslices-headers", ["C05", "C06"], "C05.copy/(*commit.Buffer).Clone/chunks", "clone shares the header slice through a reslice",
+  ("commit/buffer.go", "\tchunks := make([]header, 0, len(b.chunks))\n\tchunks = append(chunks, b.chunks...)\n", "\tchunks := b.chunks[:len(b.chunks):len(b.chunks)]\n"), suite="survives")
+w("deleteindex-in-place", ["C03", "C19", "C18"], "C03.registry/(*column.columns).DeleteIndex", "published list of computed columns filtered in place",
+  ("collection.go", "\t\tfiltered := make([]*column, 0, cap(columns[i].cols))\n\t\tfiltered = append(filtered, columns[i].cols[0])\n", "\t\tfiltered := v.cols[:1]\n"), suite="survives")
+w("readfrom-zero-buffer", ["C05"], "C05.header/sentinel/(*commit.Commit).ReadFrom$1", "deserialised buffer lacks the no-block sentinel",
+  ("commit/commit.go", "\t\tbuffer := NewBuffer(256)\n", "\t\tbuffer := new(Buffer)\n"),
+  ("commit/commit.go", "\t\tbuffer.Reset(column)\n", "\t\tbuffer.Column = column\n"), suite="survives")
+w("record-merge-shared-scratch", ["C09"], "C09.reentrant/column.ForRecord$3", "merge closure decodes into scratch records shared by all blocks",
+  ("column_record.go", "\tmergeRecord := func(v, d string) string {\n\t\tvalue := pool.Get().(T)\n\t\tdelta := pool.Get().(T)\n\t\tdefer pool.Put(value)\n\t\tdefer pool.Put(delta)\n", "\tvalue, delta := new(), new()\n\tmergeRecord := func(v, d string) string {\n"), suite="survives")
+w("chunks-from-count", ["C07"], "C07.count/(*column.Collection).chunks/extent", "block count derived from the row count",
+  ("snapshot.go", "\tmax, _ := c.fill.Max()\n\treturn int(commit.ChunkAt(max) + 1)", "\tmax := uint32(c.Count() - 1)\n\treturn int(commit.ChunkAt(max) + 1)"), suite="survives")
+w("rangeread-skips-last-block", ["C04", "C10"], "C04.blocks/(*column.Txn).rangeRead", "last (partial) block not visited",
+  ("txn_lock.go", "\tfor chunk := commit.Chunk(0); chunk <= limit; chunk++ {\n\t\tlock.RLock(uint(chunk))\n\t\tf(chunk, chunk.OfBitmap(txn.index))", "\tfor chunk := commit.Chunk(0); chunk < limit; chunk++ {\n\t\tlock.RLock(uint(chunk))\n\t\tf(chunk, chunk.OfBitmap(txn.index))"))
+w("acquire-keeps-setup", ["C02", "C04"], "C02.pool/(*column.txnPool).acquire", "pooled transaction keeps the previous user's selection",
+  ("txn.go", "\ttxn.logger = owner.logger\n\ttxn.setup = false\n", "\ttxn.logger = owner.logger\n"))
+w("bufferfor-never-finds", ["C02", "C19"], "C02.pool/(*column.Txn).bufferFor", "every write gets a buffer of its own",
+  ("txn.go", "\tfor _, c := range txn.updates {\n\t\tif c.Column == columnName {\n\t\t\treturn c\n\t\t}\n\t}\n\n\t// Create a new buffer", "\tfor _, c := range txn.updates {\n\t\tif c.Column == columnName && c.IsEmpty() {\n\t\t\treturn c\n\t\t}\n\t}\n\n\t// Create a new buffer"))
+w("reset-reslices-dirty", ["C15"], ["C15.dirty/(*column.Txn).reset/fields"], "stale dirty blocks in the pooled transaction",
+  ("txn.go", "\ttxn.dirty.Clear()\n", "\ttxn.dirty = txn.dirty[:0]\n"), suite="survives")
+w("enum-table-unlocked-append", ["C01", "C18"], "L7.write/column.columnEnum.data", "enum table extended outside the lookup's lock",
+  ("column_strings.go", "\tat, _ := c.seek.LoadOrStore(target, func() uint32 {\n\t\tc.data = append(c.data, string(v))\n\t\treturn uint32(len(c.data)) - 1\n\t})\n\treturn at", "\tif at, ok := c.seek.Load(target); ok {\n\t\treturn at\n\t}\n\tc.data = append(c.data, string(v))\n\tat := uint32(len(c.data)) - 1\n\tc.seek.Store(target, at)\n\treturn at"), suite="survives")
+
+w("reset-reslices-dirty-c02", ["C02"], "C02.query/(*column.Txn).reset/fields", "stale dirty blocks in the pooled transaction",
+  ("txn.go", "\ttxn.dirty.Clear()\n", "\ttxn.dirty = txn.dirty[:0]\n"), suite="survives")
+for _p in ("C09", "C11"):
+    w("string-apply-absolute-index-" + _p.lower(), [_p], _p + ".units/(*column.columnString).Apply", "absolute offset indexes a per-block array",
+      ("column_strings.go", "\t// Update the values of the column, for this one we can only process stores\n\tfor r.Next() {\n\t\toffset := r.Offset - int32(from)", "\t// Update the values of the column, for this one we can only process stores\n\tfor r.Next() {\n\t\t_ = from\n\t\toffset := r.Offset"))
 
 os.makedirs(os.path.dirname(os.path.abspath(__file__)), exist_ok=True)
 json.dump(W, open(os.path.join(os.path.dirname(os.path.abspath(__file__)), "witnesses.json"), "w"), indent=1)
